@@ -110,7 +110,7 @@ def evaluate(binp, runner, tag, hid, ops, with_spec=True):
     return res
 
 
-def shrink(binp, runner, tag, hid, ops, budget=400):
+def shrink(binp, runner, tag, hid, ops, budget=160):
     """Delta debugging on the operation list: keep any sublist that still shows a problem."""
     def bad(o):
         if not o:
@@ -162,7 +162,7 @@ def describe(res, ops):
     return "; ".join(res.get("problems", []))
 
 
-def correspondence(ctx, binp, runner, args, tag, what, max_report=3, with_spec=True):
+def correspondence(ctx, binp, runner, args, tag, what, max_report=2, with_spec=True):
     """Run a generator mode of the harness and compare with the model (and the spec).
     Returns statistics dict; reports violations through ctx."""
     rc, out = c.run_bin(binp, args, timeout=3000)
@@ -207,7 +207,23 @@ def correspondence(ctx, binp, runner, args, tag, what, max_report=3, with_spec=T
         if nbad > max_report:
             continue
         ops = [o for o in h.split(";") if o]
-        small = shrink(binp, runner, tag, hid, ops)
+        # everything after the first disagreement is irrelevant: cut the tail first
+        cut = len(ops)
+        for other in (model, spec):
+            if other is not None and other.get(hid) is not None and other.get(hid) != impl:
+                fd = first_diff(impl, other[hid])
+                if fd:
+                    cut = min(cut, fd[0] + 1)
+        try:
+            fb = json.loads(d["O"][hid]).get("first_bad", -1) if hid in d["O"] else -1
+            if fb is not None and 0 <= fb < len(ops):
+                cut = min(cut, fb + 1)
+        except Exception:
+            pass
+        start = ops[:cut]
+        if cut < len(ops) and not evaluate(binp, runner, tag, hid, start)["problems"]:
+            start = ops
+        small = shrink(binp, runner, tag, hid, start)
         res = evaluate(binp, runner, tag, hid, small)
         if not res["problems"]:
             small = ops
@@ -237,6 +253,25 @@ def correspondence(ctx, binp, runner, args, tag, what, max_report=3, with_spec=T
     for hid, h in samples:
         ctx.cov["samples"].append({"history": h[:400], "implementation": d["R"].get(hid, "")[:400]})
     return stats
+
+
+def correspondence_chunked(ctx, binp, runner, mode_args, seed, total, tag, what, chunk=20000, **kw):
+    """Run `total` histories in chunks (bounded memory); chunk i uses seed + i * 1000003."""
+    agg = {}
+    done = 0
+    i = 0
+    while done < total:
+        n = min(chunk, total - done)
+        args = [mode_args[0], seed + i * 1000003, n] + list(mode_args[1:])
+        st = correspondence(ctx, binp, runner, args, tag, what, **kw)
+        for k, v in st.items():
+            if isinstance(v, (int, float)):
+                agg[k] = agg.get(k, 0) + v
+        done += n
+        i += 1
+        if len([1 for _, _, ni in ctx.violations if not ni]) >= 4:
+            break
+    return agg
 
 
 def corpus_replay(ctx, binp, runner, prop):
